@@ -120,6 +120,9 @@ class Wavefunction:
 
     def __setitem__(self, idx, val):
         old_val = self._amplitude_vector[idx]
+        if isinstance(old_val, np.ndarray):
+            # Rows and slices are views of the vector; restore from a copy.
+            old_val = old_val.copy()
         self._amplitude_vector[idx] = val
 
         try:
